@@ -21,13 +21,27 @@ def fname(n):
 
 
 def q(codes):
-    return '"' + "".join(chr(c) for c in codes) + '"'
+    """a string expression for the text: characters that cannot stand in a literal are written CHR$(n)"""
+    parts, cur = [], ""
+    for c in codes:
+        if 32 <= c < 127 and c != 34:
+            cur += chr(c)
+        else:
+            if cur:
+                parts.append('"%s"' % cur)
+                cur = ""
+            parts.append("CHR$(%d)" % c)
+    if cur or not parts:
+        parts.append('"%s"' % cur)
+    return " + ".join(parts)
 
 
 def render(ops):
     lines = []
     for o in ops:
         k = o["op"]
+        if k == "given":
+            continue
         if k == "open":
             if o["mode"] == "random":
                 lines.append('OPEN "%s" FOR RANDOM AS #%d LEN = %d' % (fname(o["name"]), o["n"], o["len"]))
@@ -235,6 +249,23 @@ def gen(tier, rng):
                     kind = reader if reader != "mixed" else rng.choice(["lineinput", "input"])
                     r += [O(kind, n=2), O("eof", n=2)]
                 hs.append(("readback-blanks", w + r, ""))
+    # (a3) line ends that PRINT # does not write itself: bare LF, bare CR, mixtures, empty lines of each kind
+    eols = {"lf": [10], "cr": [13], "crlf": [13, 10]}
+    bodies = []
+    for e1 in eols:
+        for e2 in eols:
+            bodies.append(("%s-%s" % (e1, e2), S("alpha") + eols[e1] + eols[e2] + S("beta") + eols[e1]))
+            bodies.append(("f-%s-%s" % (e1, e2), S("x,y") + eols[e1] + eols[e2] + S("z")))
+    for name, body in bodies:
+        w = [O("given", name="A", text=body)]
+        for reader in ("lineinput", "input"):
+            r = [O("open", n=2, name="A", mode="input"), O("eof", n=2)]
+            for j in range(5):
+                r += [O(reader, n=2), O("eof", n=2)]
+            hs.append(("foreign-eol", w + r, ""))
+        data = "".join(chr(c) for c in body)
+        hs.append(("console-foreign-eol", [O("clineinput") for _ in range(3)], data))
+        hs.append(("console-foreign-eol", [O("cinput") for _ in range(4)], data))
     # (e) the console forms split exactly as the file forms do
     for data in ("one,  ", "  lead\r\nx", "a,  b\r\n c\r\n", "p, "):
         nf = sum(len(t.split(",")) for t in data.replace("\r\n", "\n").split("\n") if t or True)
@@ -265,7 +296,8 @@ def run(tier, replay):
         hs = gen(tier, rng)
     fsroot = os.path.join(d, "fs")
     shutil.rmtree(fsroot, ignore_errors=True)
-    reqs = [{"op": "run", "text": render(ops), "stdin": stdin, "budget": 200000, "dir": os.path.join(fsroot, "c%d" % i)}
+    reqs = [{"op": "run", "text": render(ops), "stdin": stdin, "budget": 200000, "dir": os.path.join(fsroot, "c%d" % i),
+             "files": {fname(o["name"]): "".join(chr(c) for c in o["text"]) for o in ops if o["op"] == "given"}}
             for i, (fam, ops, stdin) in enumerate(hs)]
     resps = pool.map(reqs, timeout=60)
     shutil.rmtree(fsroot, ignore_errors=True)
